@@ -23,6 +23,17 @@ package main
 //     instance of a service) are installed between requests, as the registry
 //     watcher does after every change; services have one or two instances
 //     with the same options and routes may share their allow=/deny= string.
+//   - HTPASSWD RELOAD: in two of five runs with HTTP routes a basic scheme is
+//     configured with a refresh interval. fabio's reload goroutine is a task
+//     (main.newHTTPProxy runs inside a task, so the goroutine it starts is a
+//     child task that sleeps on the simulated clock); the htpasswd file lives in
+//     a temp dir on the real disk and goes through a generated history
+//     (entries added / removed / re-keyed, file removed, restored as it was or
+//     rewritten, a directory or a dangling symlink in its place, lines that
+//     are no entries), every change made by the driver at a quiescent point
+//     with an explicit modification time. After a change the clock moves over
+//     one refresh interval (+ slack) and further clients present what is and
+//     what used to be in the file.
 //   - in a fraction of the runs the handlers are tasks (statement-level
 //     interleaving of fabio's decision code): HTTP handler goroutines are
 //     adopted, the tcp.Server accept loops are tasks so that their
@@ -52,6 +63,7 @@ import (
 	"sort"
 	"strings"
 	"sync"
+	"testing/synctest"
 	"time"
 
 	"golang.org/x/crypto/bcrypt"
@@ -61,6 +73,7 @@ import (
 	"github.com/fabiolb/fabio/internal/zzverif/simhook"
 	"github.com/fabiolb/fabio/internal/zzverif/simnet"
 	"github.com/fabiolb/fabio/metrics"
+	"github.com/fabiolb/fabio/proxy"
 	"github.com/fabiolb/fabio/proxy/tcp"
 	"github.com/fabiolb/fabio/route"
 )
@@ -250,21 +263,65 @@ func c12BasicCreds(h string) (user, pw string, ok bool) {
 
 type c12Pair struct{ User, Pw string }
 
-// the credential stores behind the two defined schemes: the htpasswd entries in file
-// order, with the clear-text password (c12WriteHtpasswd writes the files)
-var c12Valid = map[string][]c12Pair{
-	"basic1": {{"alice", "wonderland"}, {"bob", "builder"}, {"carol", "s3cret:colon"}, {"dave", "hunter2"}},
-	"basic2": {{"erin", "pw2"}, {"alice", "other-pw"}},
+// c12Entry is one line "user:encoded-password" of an htpasswd file.
+type c12Entry struct {
+	User string `json:"user"`
+	Pw   string `json:"password"`
+	Enc  string `json:"encoding"` // plain | sha | apr1 (only for the one password whose hash is written out below) | bcrypt
+}
+
+// the htpasswd files behind the two defined schemes as they are when fabio starts, in file order
+var c12Initial = map[string][]c12Entry{
+	"basic1": {{"alice", "wonderland", "plain"}, {"bob", "builder", "sha"}, {"carol", "s3cret:colon", "apr1"}, {"dave", "hunter2", "bcrypt"}},
+	"basic2": {{"erin", "pw2", "plain"}, {"alice", "other-pw", "plain"}},
+}
+
+// c12Valid: the pairs the initial files admit (also: which scheme names are defined)
+var c12Valid = map[string][]c12Pair{}
+
+func init() {
+	for s, es := range c12Initial {
+		c12Valid[s] = (&c12File{Kind: "entries", Entries: es}).pairs()
+	}
+}
+
+// c12File is one state of the path a scheme's htpasswd file is configured at.
+type c12File struct {
+	Kind    string     `json:"state"` // entries (a regular file) | removed | dangling-symlink | directory
+	Entries []c12Entry `json:"entries,omitempty"`
+	Junk    []c12Junk  `json:"lines_that_are_no_entries,omitempty"`
+	NoEOL   bool       `json:"last_line_without_newline,omitempty"`
+	// Ver numbers the versions written for one scheme (0 = the file fabio starts with). A version put back
+	// "as it was" (moved away and back, cp -p from a backup) keeps number, content and modification time.
+	Ver      int  `json:"version"`
+	OldMTime bool `json:"modification_time_in_the_past,omitempty"` // written with a modification time older than every other version (else: the simulated instant of the change)
+}
+
+type c12Junk struct {
+	Before int    `json:"before_entry"`
+	Line   string `json:"line"`
+}
+
+// pairs: the credentials the path admits in this state. Only a regular file has entries; a path that is
+// absent or cannot be read as a file admits nobody (reading written down in props.d/C12.json).
+func (f *c12File) pairs() []c12Pair {
+	if f == nil || f.Kind != "entries" {
+		return nil
+	}
+	var out []c12Pair
+	for _, e := range f.Entries {
+		out = append(out, c12Pair{e.User, e.Pw})
+	}
+	return out
 }
 
 // c12Auth is stateless on purpose: whatever was presented to the scheme before, a
-// pair is accepted iff it is exactly one of the scheme's htpasswd entries.
-func c12Auth(scheme string, authz []string) (verdict, why string) {
+// pair is accepted iff it is exactly one of the entries (valid) of the scheme's htpasswd file.
+func c12Auth(scheme string, valid []c12Pair, authz []string) (verdict, why string) {
 	if scheme == "" {
 		return c12Admit, ""
 	}
-	entries, defined := c12Valid[scheme]
-	if !defined {
+	if _, defined := c12Valid[scheme]; !defined {
 		return c12Reject, "unknown-scheme"
 	}
 	if len(authz) == 0 {
@@ -274,12 +331,21 @@ func c12Auth(scheme string, authz []string) (verdict, why string) {
 	if !ok {
 		return c12Reject, "credentials"
 	}
-	for _, e := range entries {
+	for _, e := range valid {
 		if e.User == user && e.Pw == pw {
 			return c12Admit, ""
 		}
 	}
 	return c12Reject, "credentials"
+}
+
+func c12HasPair(list []c12Pair, p c12Pair) bool {
+	for _, x := range list {
+		if x == p {
+			return true
+		}
+	}
+	return false
 }
 
 func c12Combine(av, awhy, uv, uwhy string) (string, string) {
@@ -288,6 +354,9 @@ func c12Combine(av, awhy, uv, uwhy string) (string, string) {
 	}
 	if uv == c12Reject {
 		return uv, uwhy
+	}
+	if uv == c12Either {
+		return c12Either, ""
 	}
 	return av, ""
 }
@@ -325,6 +394,27 @@ type c12Expect struct {
 	// for the reach counters only
 	authVerdict string
 	ordered     bool // derived from a pair that logged in earlier on the same client (strictly earlier in time)
+	epoch       int  // number of the epoch (0 = before any change of an htpasswd file)
+	window      bool // sent between a change of the file and the end of the refresh interval
+}
+
+// c12Change puts the path of a scheme's htpasswd file into another state.
+type c12Change struct {
+	Scheme string  `json:"scheme"`
+	What   string  `json:"what"`
+	File   c12File `json:"path_becomes"`
+	// GapMs: simulated time that passes before the next change of the same epoch (less than one refresh interval)
+	GapMs int `json:"then_clock_advances_ms,omitempty"`
+}
+
+// c12Epoch: the changes are made (by the driver, at a quiescent point), the window clients start and the
+// driver makes Pre steps (0: until they are done), the clock moves over the longest refresh interval plus
+// slack, the window clients finish, then the clients of the epoch run to completion.
+type c12Epoch struct {
+	Changes []c12Change `json:"htpasswd_changes,omitempty"`
+	Window  []int       `json:"clients_started_right_after_the_change,omitempty"` // indices into http_clients
+	Pre     int         `json:"driver_steps_before_the_clock_moves,omitempty"`
+	Clients []int       `json:"clients_started_after_refresh_interval"`
 }
 
 // c12Rebuild: while the clients are at work the table is built again from the route
@@ -344,9 +434,14 @@ type c12Scenario struct {
 	Rebuilds []c12Rebuild `json:"table_rebuilds_while_serving,omitempty"`
 	// Tasked: the handler goroutines are tasks, so requests and connections of different
 	// peers interleave at every statement of the code named by Focus.
-	Tasked  bool        `json:"handlers_interleaved_statement_by_statement,omitempty"`
-	Focus   string      `json:"interleaved_code,omitempty"` // decision: route.Target methods and package auth; all: route, proxy, proxy/tcp, auth
-	Stick   int         `json:"stick,omitempty"`
+	Tasked bool   `json:"handlers_interleaved_statement_by_statement,omitempty"`
+	Focus  string `json:"interleaved_code,omitempty"` // decision: route.Target methods and package auth; all: route, proxy, proxy/tcp, auth
+	Stick  int    `json:"stick,omitempty"`
+	// Refresh: refresh interval (seconds) of the defined basic schemes; absent or 0 = off, the file is read once.
+	// A scheme with an interval has fabio's reload goroutine (a task on the simulated clock).
+	Refresh map[string]int `json:"htpasswd_refresh_s,omitempty"`
+	// Epochs: epoch 0 has no changes; every later one starts with changes of htpasswd files.
+	Epochs  []c12Epoch  `json:"epochs"`
 	Clients []h2Client  `json:"http_clients,omitempty"`
 	Conns   []c12Conn   `json:"tcp_clients,omitempty"`
 	Expect  []c12Expect `json:"reference"`
@@ -534,6 +629,9 @@ type c12Hist struct {
 	scheme string
 	logins []c12Login // valid pairs presented so far, in generation order
 	tried  []string   // every Authorization value presented so far
+	// past: pairs that some earlier version of the scheme's htpasswd file admitted and the present state of the
+	// path does not (entry removed, password changed, file gone); kept up to date by c12GenState.change
+	past []c12Pair
 }
 
 type c12Login struct {
@@ -622,43 +720,81 @@ func c12Near(g *simcore.Tape, b c12Pair) c12Pair {
 	}
 }
 
+// c12AttemptLater: after a change of the file what matters is what the file says now and what it used to say.
+var c12AttemptLater = []string{"valid", "stale", "stale", "valid", "stale", "repeat", "near", "cross", "none", "stale", "wrong", "resplit", "other-scheme", "valid"}
+
 // next produces the Authorization header of the next request that client sends to a
 // route naming the scheme; record says whether the scheme instance exists (attempts at
 // routes with an undefined or no scheme name reach no instance and leave no history).
-func (h *c12Hist) next(g *simcore.Tape, other *c12Hist, client int, record bool) (hdr []h2Header, attempt string, ordered bool) {
+// own / otherOwn are the pairs the htpasswd files of the scheme and of the other scheme
+// admit when the request is generated; later: the file has changed at least once.
+func (h *c12Hist) next(g *simcore.Tape, other *c12Hist, client int, record bool, own, otherOwn []c12Pair, later bool) (hdr []h2Header, attempt string, ordered bool) {
 	b64 := func(s string) string { return base64.StdEncoding.EncodeToString([]byte(s)) }
-	own := c12Valid[h.scheme]
+	// where "a valid pair" comes from when the file admits nobody at the moment: what it used to admit
+	orPast := func(hh *c12Hist, now []c12Pair) []c12Pair {
+		switch {
+		case len(now) > 0:
+			return now
+		case len(hh.past) > 0:
+			return hh.past
+		}
+		return c12Valid[hh.scheme]
+	}
+	ownNow := own
+	own, otherOwn = orPast(h, own), orPast(other, otherOwn)
 	// the pair a variant is derived from: preferably one that has logged in before
 	after := false
-	base := func(hh *c12Hist) c12Pair {
+	base := func(hh *c12Hist, now []c12Pair) c12Pair {
 		if len(hh.logins) > 0 && !g.Chance(20) {
 			l := simcore.Pick(g, hh.logins)
 			after = true
 			ordered = ordered || l.client == client
 			return l.c12Pair
 		}
-		return simcore.Pick(g, c12Valid[hh.scheme])
+		return simcore.Pick(g, now)
 	}
 	kinds := c12AttemptFresh
 	if len(h.logins) > 0 {
 		kinds = c12AttemptAfter
 	}
+	if later {
+		kinds = c12AttemptLater
+	}
 	kind := simcore.Pick(g, kinds)
+	if kind == "stale" && len(h.past) == 0 {
+		kind = "valid"
+	}
 	var v string
 	pair := func(p c12Pair) string { return "Basic " + b64(p.User+":"+p.Pw) }
 	switch kind {
 	case "valid":
 		v = pair(simcore.Pick(g, own))
+	case "stale":
+		// what the file used to admit; preferably a pair that has logged in while it did
+		var cand []c12Login
+		for _, l := range h.logins {
+			if c12HasPair(h.past, l.c12Pair) {
+				cand = append(cand, l)
+			}
+		}
+		if len(cand) > 0 && !g.Chance(30) {
+			l := simcore.Pick(g, cand)
+			after = true
+			ordered = ordered || l.client == client
+			v = pair(l.c12Pair)
+		} else {
+			v = pair(simcore.Pick(g, h.past))
+		}
 	case "resplit":
-		v = pair(c12Resplit(g, base(h)))
+		v = pair(c12Resplit(g, base(h, own)))
 	case "near":
-		v = pair(c12Near(g, base(h)))
+		v = pair(c12Near(g, base(h, own)))
 	case "cross":
 		// a valid user with another entry's password, or another entry's user with a valid password
-		b := base(h)
+		b := base(h, own)
 		o := simcore.Pick(g, own)
 		if o.User == b.User {
-			o = simcore.Pick(g, c12Valid[other.scheme])
+			o = simcore.Pick(g, otherOwn)
 		}
 		if g.Bool() {
 			v = pair(c12Pair{o.User, b.Pw})
@@ -666,7 +802,7 @@ func (h *c12Hist) next(g *simcore.Tape, other *c12Hist, client int, record bool)
 			v = pair(c12Pair{b.User, o.Pw})
 		}
 	case "other-scheme":
-		v = pair(base(other))
+		v = pair(base(other, otherOwn))
 	case "wrong":
 		v = "Basic " + b64(simcore.Pick(g, []string{"alice:wrong", "bob:Builder", "carol:s3cret", "erin:pw", "dave:hunter22", "mallory:wonderland", "Alice:wonderland", ":wonderland", "alice :wonderland", "alice:", "alice", "erin:", "alice:other-pw", "alice:wonderland"}))
 	case "none":
@@ -694,12 +830,293 @@ func (h *c12Hist) next(g *simcore.Tape, other *c12Hist, client int, record bool)
 	}
 	if record {
 		h.tried = append(h.tried, v)
-		if verdict, _ := c12Auth(h.scheme, []string{v}); verdict == c12Admit {
-			u, p, _ := c12BasicCreds(v)
+		if u, p, ok := c12BasicCreds(v); ok && c12HasPair(ownNow, c12Pair{u, p}) {
 			h.logins = append(h.logins, c12Login{c12Pair{u, p}, client})
 		}
 	}
 	return []h2Header{{simcore.Pick(g, []string{"Authorization", "authorization"}), v}}, attempt, ordered
+}
+
+// c12GenState is what the generator carries from one HTTP client to the next.
+type c12GenState struct {
+	sc         *c12Scenario
+	id         int // next request id
+	httpRoutes []int
+	hist       map[string]*c12Hist
+	cur        map[string]*c12File   // defined scheme -> present state of its htpasswd path
+	vers       map[string][]*c12File // defined scheme -> every version written so far (vers[s][v].Ver == v)
+	// cands: the states a request may be judged by that is sent before the refresh interval has passed since
+	// the last change: the state at the end of the previous epoch and every state since, the present one last
+	cands map[string][]*c12File
+	epoch int
+}
+
+// refreshing lists the schemes that have a refresh interval, in a fixed order.
+func (sc *c12Scenario) refreshing() []string {
+	var out []string
+	for _, s := range []string{"basic1", "basic2"} {
+		if sc.Refresh[s] > 0 {
+			out = append(out, s)
+		}
+	}
+	return out
+}
+
+// authVerdict: the reference verdict on the credentials of a request to a route naming scheme.
+func (gs *c12GenState) authVerdict(scheme string, authz []string, window bool) (verdict, why string) {
+	states := []*c12File{gs.cur[scheme]}
+	if window && len(gs.cands[scheme]) > 0 {
+		states = gs.cands[scheme]
+	}
+	for i, st := range states {
+		v, w := c12Auth(scheme, st.pairs(), authz)
+		switch {
+		case i == 0:
+			verdict, why = v, w
+		case v != verdict:
+			// between a change and the end of the refresh interval either content may govern
+			verdict, why = c12Either, ""
+		}
+	}
+	if verdict == c12Reject && why == "credentials" && len(authz) > 0 {
+		if u, p, ok := c12BasicCreds(authz[0]); ok && c12HasPair(gs.hist[scheme].past, c12Pair{u, p}) {
+			why = "credentials-no-longer-in-the-file"
+		}
+	}
+	return verdict, why
+}
+
+// request generates request k of n of client c (cl) to route ri and its reference verdict.
+func (gs *c12GenState) request(g *simcore.Tape, cl *h2Client, c int, peer netip.Addr, ri int, session, last, window bool) {
+	sc := gs.sc
+	rt := &sc.Routes[ri]
+	rq := h2Req{ID: fmt.Sprintf("r%d", gs.id), Route: ri, Method: simcore.Pick(g, []string{"GET", "GET", "POST", "HEAD", "DELETE"}), Path: rt.Src + simcore.Pick(g, []string{"", "/", "/a/b"}), Host: "fabio.sim"}
+	gs.id++
+	rq.Headers = []h2Header{{"Accept-Encoding", "identity"}}
+	// X-Forwarded-For: 0-2 header lines of 1-3 elements (a session mostly sends none)
+	var lines []string
+	nl := simcore.Pick(g, []int{0, 1, 2, 1, 2, 0})
+	if session && g.Chance(75) {
+		nl = 0
+	}
+	for l := 0; l < nl; l++ {
+		var els []string
+		for x, nx := 0, g.Range(1, 3); x < nx; x++ {
+			switch v := g.Intn(20); {
+			case v < 13:
+				els = append(els, c12Admitted(g, rt).String())
+			case v < 16:
+				els = append(els, c12Addr(g, rt).String())
+			case v < 17:
+				els = append(els, peer.WithZone("").String())
+			default:
+				els = append(els, simcore.Pick(g, c12Garbage))
+			}
+		}
+		line := strings.Join(els, simcore.Pick(g, c12Seps))
+		lines = append(lines, line)
+		rq.Headers = append(rq.Headers, h2Header{simcore.Pick(g, c12XFFNames), line})
+	}
+	// credentials come from the history of the scheme the route names (routes with an
+	// undefined or no name present basic1's attempts, which reach no scheme instance)
+	own, other := gs.hist["basic1"], gs.hist["basic2"]
+	_, defined := c12Valid[rt.Auth]
+	if rt.Auth == "basic2" {
+		own, other = other, own
+	}
+	authz, attempt, ordered := own.next(g, other, c, defined, gs.cur[own.scheme].pairs(), gs.cur[other.scheme].pairs(), gs.epoch > 0 && sc.Refresh[own.scheme] > 0)
+	rq.Headers = append(rq.Headers, authz...)
+	if session && !last && rq.Method != "POST" && g.Chance(20) {
+		// the next attempt of the session arrives on a new connection (asked for on requests
+		// without a body only: when a refused upload also asks to close, net/http closes with
+		// the body unread and the reset may overtake the answer, which is TCP and not the gate)
+		rq.Headers = append(rq.Headers, h2Header{"Connection", "close"})
+	}
+	if rq.Method == "POST" {
+		rq.Body = g.Bytes(g.Range(0, 3000))
+		rq.Chunked = len(rq.Body) > 0 && g.Chance(30)
+	}
+	rq.BodyLen = len(rq.Body)
+	rq.Chunks = c07GenChunks(g, len(rq.Body)+100)
+	rq.Resp = h2Resp{Status: simcore.Pick(g, []int{200, 204, 404, 500})}
+	if sc.Tasked && rq.Method == "HEAD" && rq.Resp.Status == 204 {
+		// the only reply here whose length net/http does not know (a reply to HEAD without Content-Length):
+		// ReverseProxy flushes such a reply from a timer goroutine that races the handler, and with the
+		// handler parked at its next statement the outcome of that race would reach the schedule
+		rq.Resp.Status = 200
+	}
+	if !h2NoBody(rq.Method, rq.Resp.Status) {
+		rq.Resp.Body = g.Bytes(g.Range(0, 500))
+	}
+	rq.Resp.BodyLen = len(rq.Resp.Body)
+	cl.Reqs = append(cl.Reqs, rq)
+
+	var av []string
+	for _, h := range authz {
+		av = append(av, h.V)
+	}
+	v1, w1 := rt.ref.access(peer, lines)
+	v2, w2 := gs.authVerdict(rt.Auth, av, window)
+	v, w := c12Combine(v1, w1, v2, w2)
+	ex := c12Expect{ID: rq.ID, Verdict: v, Why: w, route: ri, proto: "http", epoch: gs.epoch, window: window}
+	if rt.Auth != "" {
+		ex.Attempt = attempt
+		ex.authVerdict, ex.ordered = v2, ordered && defined
+	}
+	sc.Expect = append(sc.Expect, ex)
+}
+
+// laterClient generates a client of an epoch after a change: 1-4 requests from an address the rules do not
+// refuse, mostly to a route whose scheme reloads its file.
+func (gs *c12GenState) laterClient(g *simcore.Tape, window bool) int {
+	sc := gs.sc
+	var reloading []int
+	for _, ri := range gs.httpRoutes {
+		if sc.Refresh[sc.Routes[ri].Auth] > 0 {
+			reloading = append(reloading, ri)
+		}
+	}
+	focus := simcore.Pick(g, reloading)
+	c := len(sc.Clients)
+	peer := c12Admitted(g, &sc.Routes[focus])
+	cl := h2Client{Addr: c12HostPort(peer, 5000+100*c)}
+	n := g.Range(1, 4)
+	for k := 0; k < n; k++ {
+		ri := focus
+		if g.Chance(15) {
+			ri = simcore.Pick(g, gs.httpRoutes)
+		}
+		gs.request(g, &cl, c, peer, ri, true, k == n-1, window)
+	}
+	sc.Clients = append(sc.Clients, cl)
+	return c
+}
+
+var c12NewUsers = []c12Pair{{"frank", "f0rt"}, {"grace", "hopper"}, {"alicia", "wonderland"}, {"Alice", "wonderland"}, {"bob2", "builder"}, {"al", "icewonderland"}, {"erin", "wonderland"}, {"dave", "pw2"}}
+var c12JunkLines = []string{"garbage", "", "   ", "alice", "alicewonderland", "# managed by ops", "\x00\x01\x02 binary", "bob {SHA}fEqNCco3Yq9h5ZUglD3CZJT4lBs=", "\t"}
+
+// edit derives the entries of a new version from es.
+func (gs *c12GenState) edit(g *simcore.Tape, es []c12Entry, how string) []c12Entry {
+	out := append([]c12Entry(nil), es...)
+	switch {
+	case how == "drop-entry" && len(out) > 0:
+		i := g.Intn(len(out))
+		out = append(out[:i], out[i+1:]...)
+	case how == "change-password" && len(out) > 0:
+		i := g.Intn(len(out))
+		e := out[i]
+		switch g.Intn(4) {
+		case 0:
+			e.Pw += "2"
+		case 1:
+			e.Pw = simcore.Pick(g, out).Pw // the password of another entry of the file (or its own: then only the encoding changes)
+		case 2:
+			e.Pw = "changed-" + e.User
+		default:
+			e.Pw = c12Chop(e.Pw) + "X"
+		}
+		e.Enc = simcore.Pick(g, []string{"plain", "sha", "bcrypt"})
+		out[i] = e
+	case how == "add-entry":
+		var free []c12Pair
+		for _, u := range c12NewUsers {
+			taken := false
+			for _, e := range out {
+				taken = taken || e.User == u.User
+			}
+			if !taken {
+				free = append(free, u)
+			}
+		}
+		if len(free) > 0 {
+			u := simcore.Pick(g, free)
+			out = append(out, c12Entry{u.User, u.Pw, simcore.Pick(g, []string{"plain", "sha", "bcrypt"})})
+		}
+	}
+	return out
+}
+
+var c12ChangePresent = []string{"remove", "change-password", "drop-entry", "remove", "add-entry", "rewrite-unchanged", "directory", "dangling-symlink", "no-entries", "earlier-version", "lines-that-are-no-entries", "change-password", "remove"}
+var c12ChangeAbsent = []string{"restore-as-it-was", "restore-rewritten", "restore-as-it-was", "restore-edited", "restore-earlier-version", "directory", "remove", "dangling-symlink", "restore-as-it-was", "restore-rewritten"}
+
+// change draws the next state of the htpasswd path of scheme s.
+func (gs *c12GenState) change(g *simcore.Tape, s string) c12Change {
+	cur := gs.cur[s]
+	var good []*c12File // the regular-file versions so far
+	for _, f := range gs.vers[s] {
+		if f.Kind == "entries" {
+			good = append(good, f)
+		}
+	}
+	lastGood := good[len(good)-1]
+	version := func(kind string, es []c12Entry) *c12File {
+		f := &c12File{Kind: kind, Entries: es, Ver: len(gs.vers[s]), OldMTime: g.Chance(15)}
+		gs.vers[s] = append(gs.vers[s], f)
+		return f
+	}
+	var what string
+	if cur.Kind == "entries" {
+		what = simcore.Pick(g, c12ChangePresent)
+	} else {
+		what = simcore.Pick(g, c12ChangeAbsent)
+	}
+	var nf *c12File
+	switch what {
+	case "remove":
+		nf = &c12File{Kind: "removed", Ver: cur.Ver}
+	case "dangling-symlink":
+		nf = &c12File{Kind: "dangling-symlink", Ver: cur.Ver}
+	case "directory":
+		nf = version("directory", nil)
+	case "change-password", "drop-entry", "add-entry":
+		nf = version("entries", gs.edit(g, cur.Entries, what))
+	case "rewrite-unchanged":
+		nf = version("entries", cur.Entries)
+	case "no-entries":
+		nf = version("entries", nil)
+		for i, n := 0, g.Range(0, 3); i < n; i++ {
+			nf.Junk = append(nf.Junk, c12Junk{0, simcore.Pick(g, c12JunkLines)})
+		}
+	case "lines-that-are-no-entries":
+		// same entries, rotated, with lines in between that have no colon
+		es := append([]c12Entry(nil), cur.Entries...)
+		if len(es) > 1 {
+			k := g.Intn(len(es))
+			es = append(es[k:], es[:k]...)
+		}
+		nf = version("entries", es)
+		for i, n := 0, g.Range(1, 3); i < n; i++ {
+			nf.Junk = append(nf.Junk, c12Junk{g.Range(0, len(es)), simcore.Pick(g, c12JunkLines)})
+		}
+		nf.NoEOL = g.Bool()
+	case "earlier-version", "restore-earlier-version":
+		// an earlier version put in place as it was (content and modification time)
+		nf = simcore.Pick(g, good)
+		if nf == cur {
+			what += " (the present one: no change)"
+		}
+	case "restore-as-it-was":
+		// the last regular file comes back with the modification time it had (moved away and back)
+		nf = lastGood
+	case "restore-rewritten":
+		nf = version("entries", lastGood.Entries)
+	case "restore-edited":
+		nf = version("entries", gs.edit(g, lastGood.Entries, simcore.Pick(g, []string{"change-password", "drop-entry", "add-entry"})))
+	}
+	gs.cur[s] = nf
+	gs.cands[s] = append(gs.cands[s], nf)
+	// what the path used to admit and does not admit now
+	h := gs.hist[s]
+	h.past = nil
+	now := nf.pairs()
+	for _, f := range gs.vers[s] {
+		for _, p := range f.pairs() {
+			if !c12HasPair(now, p) && !c12HasPair(h.past, p) {
+				h.past = append(h.past, p)
+			}
+		}
+	}
+	return c12Change{Scheme: s, What: what, File: *nf}
 }
 
 func c12Gen(g *simcore.Tape, thorough bool) *c12Scenario {
@@ -709,6 +1126,8 @@ func c12Gen(g *simcore.Tape, thorough bool) *c12Scenario {
 	if thorough {
 		maxCl = 5
 	}
+	// htpasswd reload: two of five runs with HTTP routes
+	reload := g.Chance(40) && mode != 1
 	// statement-level runs: the handlers of several peers interleave inside fabio's decision code
 	if sc.Tasked = g.Chance(30); sc.Tasked {
 		sc.Focus = simcore.Pick(g, []string{"decision", "all"})
@@ -724,6 +1143,14 @@ func c12Gen(g *simcore.Tape, thorough bool) *c12Scenario {
 				rt.More = []string{fmt.Sprintf("up%db.sim:80", j)}
 			}
 			rt.Auth = simcore.Pick(g, []string{"", "", "basic1", "basic2", "nosuch", "basic1", "", "Basic1"})
+			if reload && j == 0 {
+				// the first route names the scheme whose file will change
+				rt.Auth = simcore.Pick(g, []string{"basic1", "basic2"})
+				sc.Refresh = map[string]int{rt.Auth: simcore.Pick(g, []int{1, 2, 5})}
+				if o := map[string]string{"basic1": "basic2", "basic2": "basic1"}[rt.Auth]; g.Chance(30) {
+					sc.Refresh[o] = simcore.Pick(g, []int{1, 3})
+				}
+			}
 			httpRoutes = append(httpRoutes, len(sc.Routes))
 			sc.Routes = append(sc.Routes, rt)
 		}
@@ -744,9 +1171,15 @@ func c12Gen(g *simcore.Tape, thorough bool) *c12Scenario {
 			sc.Routes = append(sc.Routes, rt)
 		}
 	}
-	id := 0
+	sc.Epochs = []c12Epoch{{}}
+	gs := &c12GenState{sc: sc, httpRoutes: httpRoutes,
+		hist: map[string]*c12Hist{"basic1": {scheme: "basic1"}, "basic2": {scheme: "basic2"}},
+		cur:  map[string]*c12File{}, vers: map[string][]*c12File{}, cands: map[string][]*c12File{}}
+	for _, s := range []string{"basic1", "basic2"} {
+		f := &c12File{Kind: "entries", Entries: c12Initial[s]}
+		gs.cur[s], gs.vers[s], gs.cands[s] = f, []*c12File{f}, []*c12File{f}
+	}
 	if len(httpRoutes) > 0 {
-		hist := map[string]*c12Hist{"basic1": {scheme: "basic1"}, "basic2": {scheme: "basic2"}}
 		maxSess := 6
 		if thorough {
 			maxSess = 10
@@ -791,82 +1224,9 @@ func c12Gen(g *simcore.Tape, thorough bool) *c12Scenario {
 				if g.Chance(25) && (hot < 0 || g.Chance(40)) {
 					ri = simcore.Pick(g, httpRoutes)
 				}
-				rt := &sc.Routes[ri]
-				rq := h2Req{ID: fmt.Sprintf("r%d", id), Route: ri, Method: simcore.Pick(g, []string{"GET", "GET", "POST", "HEAD", "DELETE"}), Path: rt.Src + simcore.Pick(g, []string{"", "/", "/a/b"}), Host: "fabio.sim"}
-				id++
-				rq.Headers = []h2Header{{"Accept-Encoding", "identity"}}
-				// X-Forwarded-For: 0-2 header lines of 1-3 elements (a session mostly sends none)
-				var lines []string
-				nl := simcore.Pick(g, []int{0, 1, 2, 1, 2, 0})
-				if session && g.Chance(75) {
-					nl = 0
-				}
-				for l := 0; l < nl; l++ {
-					var els []string
-					for x, nx := 0, g.Range(1, 3); x < nx; x++ {
-						switch v := g.Intn(20); {
-						case v < 13:
-							els = append(els, c12Admitted(g, rt).String())
-						case v < 16:
-							els = append(els, c12Addr(g, rt).String())
-						case v < 17:
-							els = append(els, peer.WithZone("").String())
-						default:
-							els = append(els, simcore.Pick(g, c12Garbage))
-						}
-					}
-					line := strings.Join(els, simcore.Pick(g, c12Seps))
-					lines = append(lines, line)
-					rq.Headers = append(rq.Headers, h2Header{simcore.Pick(g, c12XFFNames), line})
-				}
-				// credentials come from the history of the scheme the route names (routes with an
-				// undefined or no name present basic1's attempts, which reach no scheme instance)
-				own, other := hist["basic1"], hist["basic2"]
-				_, defined := c12Valid[rt.Auth]
-				if rt.Auth == "basic2" {
-					own, other = other, own
-				}
-				authz, attempt, ordered := own.next(g, other, c, defined)
-				rq.Headers = append(rq.Headers, authz...)
-				if session && k < n-1 && rq.Method != "POST" && g.Chance(20) {
-					// the next attempt of the session arrives on a new connection (asked for on requests
-					// without a body only: when a refused upload also asks to close, net/http closes with
-					// the body unread and the reset may overtake the answer, which is TCP and not the gate)
-					rq.Headers = append(rq.Headers, h2Header{"Connection", "close"})
-				}
-				if rq.Method == "POST" {
-					rq.Body = g.Bytes(g.Range(0, 3000))
-					rq.Chunked = len(rq.Body) > 0 && g.Chance(30)
-				}
-				rq.BodyLen = len(rq.Body)
-				rq.Chunks = c07GenChunks(g, len(rq.Body)+100)
-				rq.Resp = h2Resp{Status: simcore.Pick(g, []int{200, 204, 404, 500})}
-				if sc.Tasked && rq.Method == "HEAD" && rq.Resp.Status == 204 {
-					// the only reply here whose length net/http does not know (a reply to HEAD without Content-Length):
-					// ReverseProxy flushes such a reply from a timer goroutine that races the handler, and with the
-					// handler parked at its next statement the outcome of that race would reach the schedule
-					rq.Resp.Status = 200
-				}
-				if !h2NoBody(rq.Method, rq.Resp.Status) {
-					rq.Resp.Body = g.Bytes(g.Range(0, 500))
-				}
-				rq.Resp.BodyLen = len(rq.Resp.Body)
-				cl.Reqs = append(cl.Reqs, rq)
-
-				var av []string
-				for _, h := range authz {
-					av = append(av, h.V)
-				}
-				v1, w1 := rt.ref.access(peer, lines)
-				v2, w2 := c12Auth(rt.Auth, av)
-				v, w := c12Combine(v1, w1, v2, w2)
-				ex := c12Expect{ID: rq.ID, Verdict: v, Why: w, route: ri, proto: "http"}
-				if rt.Auth != "" {
-					ex.Attempt = attempt
-					ex.authVerdict, ex.ordered = v2, ordered && defined
-				}
-				sc.Expect = append(sc.Expect, ex)
+				gs.request(g, &cl, c, peer, ri, session, k == n-1, false)
 			}
+			sc.Epochs[0].Clients = append(sc.Epochs[0].Clients, len(sc.Clients))
 			sc.Clients = append(sc.Clients, cl)
 		}
 	}
@@ -908,6 +1268,46 @@ func c12Gen(g *simcore.Tape, thorough bool) *c12Scenario {
 			sc.Conns = append(sc.Conns, cn)
 			v, w := rt.ref.access(peer, nil)
 			sc.Expect = append(sc.Expect, c12Expect{ID: cn.ID, Verdict: v, Why: w, route: ri, proto: rt.Proto})
+		}
+	}
+	// the life of the htpasswd files: 1-4 (thorough 1-6) epochs, each opened by one change (1 in 5: two, less than one
+	// refresh interval apart) of the file of a scheme that has a refresh interval
+	if reload {
+		maxEp := 4
+		if thorough {
+			maxEp = 6
+		}
+		schemes := sc.refreshing()
+		for k, n := 1, g.Range(1, maxEp); k <= n; k++ {
+			gs.epoch = k
+			ep := c12Epoch{}
+			nch := 1
+			if g.Chance(20) {
+				nch = 2
+			}
+			for j := 0; j < nch; j++ {
+				s := schemes[0]
+				if len(schemes) > 1 && g.Chance(35) {
+					s = schemes[1]
+				}
+				ch := gs.change(g, s)
+				if j < nch-1 {
+					ch.GapMs = g.Range(0, sc.Refresh[s]*1000-1)
+				}
+				ep.Changes = append(ep.Changes, ch)
+			}
+			if g.Chance(25) {
+				ep.Window = append(ep.Window, gs.laterClient(g, true))
+				ep.Pre = simcore.Pick(g, []int{0, 3, 15, 50, 150})
+			}
+			// from here on the refresh interval has passed: only the present state counts
+			for _, s := range schemes {
+				gs.cands[s] = []*c12File{gs.cur[s]}
+			}
+			for c, nc := 0, simcore.Pick(g, []int{1, 0, 2, 1}); c < nc; c++ {
+				ep.Clients = append(ep.Clients, gs.laterClient(g, false))
+			}
+			sc.Epochs = append(sc.Epochs, ep)
 		}
 	}
 	// the life of the routing table. The table that serves has been built from the same text once
@@ -1061,21 +1461,112 @@ func c12ClientHello(name string) []byte {
 	return h
 }
 
-func c12WriteHtpasswd(dir string) (a, b string, err error) {
-	sha := sha1.Sum([]byte("builder"))
-	bc, err := bcrypt.GenerateFromPassword([]byte("hunter2"), bcrypt.MinCost)
+var c12BcMu sync.Mutex
+var c12Bc = map[string]string{} // password -> bcrypt hash (the salt is random: never traced, only matched)
+
+func c12Bcrypt(pw string) (string, error) {
+	c12BcMu.Lock()
+	defer c12BcMu.Unlock()
+	if h := c12Bc[pw]; h != "" {
+		return h, nil
+	}
+	bc, err := bcrypt.GenerateFromPassword([]byte(pw), bcrypt.MinCost)
 	if err != nil {
-		return "", "", err
+		return "", err
 	}
-	fa := "alice:wonderland\nbob:{SHA}" + base64.StdEncoding.EncodeToString(sha[:]) + "\ncarol:$apr1$Zx8qPm1k$VrMIn3.GpdlohepABKm1Q/\ndave:" + string(bc) + "\n"
-	fb := "erin:pw2\nalice:other-pw\n"
-	a, b = filepath.Join(dir, "a.htpasswd"), filepath.Join(dir, "b.htpasswd")
-	if err = os.WriteFile(a, []byte(fa), 0o600); err != nil {
-		return
-	}
-	err = os.WriteFile(b, []byte(fb), 0o600)
-	return
+	c12Bc[pw] = string(bc)
+	return string(bc), nil
 }
+
+// c12Render writes out the text of a regular-file version.
+func c12Render(f *c12File) ([]byte, error) {
+	var lines []string
+	junk := func(at int) {
+		for _, j := range f.Junk {
+			if j.Before == at {
+				lines = append(lines, j.Line)
+			}
+		}
+	}
+	for i, e := range f.Entries {
+		junk(i)
+		switch e.Enc {
+		case "sha":
+			sum := sha1.Sum([]byte(e.Pw))
+			lines = append(lines, e.User+":{SHA}"+base64.StdEncoding.EncodeToString(sum[:]))
+		case "apr1":
+			if e.Pw != "s3cret:colon" {
+				return nil, fmt.Errorf("no apr1 hash for %q", e.Pw)
+			}
+			lines = append(lines, e.User+":$apr1$Zx8qPm1k$VrMIn3.GpdlohepABKm1Q/")
+		case "bcrypt":
+			bc, err := c12Bcrypt(e.Pw)
+			if err != nil {
+				return nil, err
+			}
+			lines = append(lines, e.User+":"+bc)
+		default:
+			lines = append(lines, e.User+":"+e.Pw)
+		}
+	}
+	junk(len(f.Entries))
+	text := strings.Join(lines, "\n")
+	if !f.NoEOL && len(lines) > 0 {
+		text += "\n"
+	}
+	return []byte(text), nil
+}
+
+// c12Disk keeps the htpasswd paths of a run on the real disk (go-htpasswd, a dependency, opens them itself).
+// Modification times are set explicitly: the simulated instant of the change, or a time in the past.
+type c12Disk struct {
+	dir   string
+	mtime map[string]time.Time // scheme/version -> modification time the version was written with
+}
+
+func (dk *c12Disk) path(scheme string) string {
+	return filepath.Join(dk.dir, map[string]string{"basic1": "a.htpasswd", "basic2": "b.htpasswd"}[scheme])
+}
+
+// put brings the path of scheme into state f.
+func (dk *c12Disk) put(scheme string, f *c12File) error {
+	p := dk.path(scheme)
+	if err := os.RemoveAll(p); err != nil {
+		return err
+	}
+	key := fmt.Sprintf("%s/%d", scheme, f.Ver)
+	mt, known := dk.mtime[key]
+	if !known {
+		mt = time.Now().Add(time.Duration(f.Ver) * time.Millisecond) // the bubble clock
+		if f.OldMTime {
+			mt = time.Date(1990, 1, 1, 0, 0, 0, 0, time.UTC).Add(time.Duration(f.Ver) * time.Hour)
+		}
+		dk.mtime[key] = mt
+	}
+	switch f.Kind {
+	case "entries":
+		text, err := c12Render(f)
+		if err != nil {
+			return err
+		}
+		if err := os.WriteFile(p, text, 0o600); err != nil {
+			return err
+		}
+		return os.Chtimes(p, mt, mt)
+	case "directory":
+		if err := os.Mkdir(p, 0o700); err != nil {
+			return err
+		}
+		return os.Chtimes(p, mt, mt)
+	case "dangling-symlink":
+		return os.Symlink(filepath.Join(dk.dir, "nowhere"), p)
+	}
+	return nil // removed
+}
+
+// c12Slack: a request sent one refresh interval plus this much after a change of the file is judged by the
+// new content (fabio's reload needs no simulated time; the slack only keeps the instant off the tick itself).
+const c12Slack = 100 * time.Millisecond
 
 func runC12(r *simcore.Run) {
 	sc := c12Gen(r.Gen, r.Thorough())
@@ -1085,17 +1576,22 @@ func runC12(r *simcore.Run) {
 		expect[sc.Expect[i].ID] = &sc.Expect[i]
 	}
 
-	// the htpasswd files are read once by auth.LoadAuthSchemes (real disk, not part of the fault space)
+	// the htpasswd files live on the real disk in a temp dir. Schemes without a refresh interval read theirs once
+	// (the file is removed after loading); the others have fabio's reload goroutine, which must be a task so
+	// that it sleeps on the simulated clock under the driver's control and ends with the run: newHTTPProxy
+	// runs inside a task and the goroutine it starts becomes a child task.
 	dir, err := os.MkdirTemp("", "zzverif-c12-")
 	if err != nil {
 		r.Trouble("temp dir: %v", err)
 		return
 	}
 	defer os.RemoveAll(dir)
-	fa, fb, err := c12WriteHtpasswd(dir)
-	if err != nil {
-		r.Trouble("htpasswd: %v", err)
-		return
+	disk := &c12Disk{dir: dir, mtime: map[string]time.Time{}}
+	for _, s := range []string{"basic1", "basic2"} {
+		if err := disk.put(s, &c12File{Kind: "entries", Entries: c12Initial[s], OldMTime: true}); err != nil {
+			r.Trouble("htpasswd: %v", err)
+			return
+		}
 	}
 	cfg := &config.Config{}
 	cfg.Proxy.Strategy = "rnd"
@@ -1106,13 +1602,34 @@ func runC12(r *simcore.Run) {
 	cfg.Proxy.NoRouteStatus = 404
 	cfg.GlobCacheSize = 100
 	cfg.Proxy.DialTimeout = 30 * time.Second
-	cfg.Proxy.AuthSchemes = map[string]config.AuthScheme{
-		"basic1": {Name: "basic1", Type: "basic", Basic: config.BasicAuth{File: fa, Realm: "sim one"}},
-		"basic2": {Name: "basic2", Type: "basic", Basic: config.BasicAuth{File: fb, Realm: "sim two"}},
-	}
-	e := h2NewEnv(r, cfg, c12Table(sc, 0))
+	e := h2NewEnv(r, cfg, c12Table(sc, 0)) // (builds a proxy without auth schemes, replaced below)
 	defer e.finish()
-	os.RemoveAll(dir)
+	cfg.Proxy.AuthSchemes = map[string]config.AuthScheme{
+		"basic1": {Name: "basic1", Type: "basic", Basic: config.BasicAuth{File: disk.path("basic1"), Realm: "sim one", Refresh: time.Duration(sc.Refresh["basic1"]) * time.Second}},
+		"basic2": {Name: "basic2", Type: "basic", Basic: config.BasicAuth{File: disk.path("basic2"), Realm: "sim two", Refresh: time.Duration(sc.Refresh["basic2"]) * time.Second}},
+	}
+	{
+		dp := metrics.DiscardProvider{}
+		stats := &proxy.HttpStatsHandler{Noroute: dp.NewCounter("notfound"), Requests: dp.NewHistogram("requests"),
+			WSConn: dp.NewGauge("ws.conn"), StatusTimer: dp.NewHistogram("http.status", "code"), RedirectCounter: dp.NewCounter("http.redirect.count", "code")}
+		var px *proxy.HTTPProxy
+		boot := e.d.Sim.Spawn("boot", func() { px = newHTTPProxy(cfg, stats) })
+		e.d.RunTasks(10000) // the reload goroutines (boot/1, boot/2) run up to their first wait for the ticker
+		if !boot.Done() || px == nil {
+			r.Trouble("newHTTPProxy did not return: %v", e.d.Sim.TaskStates())
+			return
+		}
+		e.proxy = px
+	}
+	if len(sc.Refresh) > 0 {
+		e.d.Sim.StopBudget = 100 // the reload loops are endless: they end a few ticks after the run
+		r.Probe("htpasswd_reload_run")
+	}
+	for _, s := range []string{"basic1", "basic2"} {
+		if sc.Refresh[s] == 0 {
+			os.Remove(disk.path(s)) // read once
+		}
+	}
 	// the table text is parsed and installed Builds times before anything is served
 	for i := 1; i < sc.Builds; i++ {
 		if !c12Install(r, c12Table(sc, 0)) {
@@ -1251,15 +1768,19 @@ func runC12(r *simcore.Run) {
 		}
 	}
 
-	for i := range sc.Clients {
-		e.client(&sc.Clients[i])
-	}
-	for i := range sc.Conns {
-		c12TCPClient(e, st, sc, &sc.Conns[i])
-	}
 	maxSteps := 200000
 	if sc.Tasked {
 		maxSteps = 600000
+	}
+	start := func(idx []int) {
+		for _, i := range idx {
+			e.client(&sc.Clients[i])
+		}
+	}
+	// epoch 0: the files are as fabio has loaded them
+	start(sc.Epochs[0].Clients)
+	for i := range sc.Conns {
+		c12TCPClient(e, st, sc, &sc.Conns[i])
 	}
 	finished := e.run(maxSteps, 30*time.Minute)
 	if !finished {
@@ -1274,6 +1795,66 @@ func runC12(r *simcore.Run) {
 		}
 		if !stuck {
 			r.Trouble("clients did not finish")
+			return
+		}
+	}
+	// later epochs: the driver changes htpasswd files at a quiescent point (no request is in flight, the reload
+	// tasks wait for their tickers or stand at a statement), lets the refresh interval pass and sends more clients
+	settle := c12Slack
+	for _, s := range sc.refreshing() {
+		if d := time.Duration(sc.Refresh[s])*time.Second + c12Slack; d > settle {
+			settle = d
+		}
+	}
+	trail := "" // the changes so far, for the reach counters
+	for k := 1; k < len(sc.Epochs) && finished; k++ {
+		ep := &sc.Epochs[k]
+		for j := range ep.Changes {
+			ch := &ep.Changes[j]
+			synctest.Wait()
+			if err := disk.put(ch.Scheme, &ch.File); err != nil {
+				r.Trouble("htpasswd change: %v", err)
+				return
+			}
+			what, _, _ := strings.Cut(ch.What, " ")
+			r.Tracef("epoch %d: htpasswd path of %s: %s -> %s version %d", k, ch.Scheme, what, ch.File.Kind, ch.File.Ver)
+			r.Probe("htpasswd_" + what)
+			if ch.Scheme == sc.refreshing()[0] {
+				switch {
+				case ch.File.Kind == "entries":
+					trail += "P"
+				case !strings.HasSuffix(trail, "A"):
+					trail += "A"
+				}
+			}
+			if ch.GapMs > 0 {
+				e.d.AdvanceRunningTasks(time.Duration(ch.GapMs)*time.Millisecond, 50*time.Millisecond)
+			}
+		}
+		if strings.Contains(trail, "APA") {
+			r.Probe("htpasswd_gone_back_gone_again")
+		}
+		if len(ep.Window) > 0 {
+			r.Probe("clients_between_change_and_refresh")
+			start(ep.Window)
+			if ep.Pre == 0 {
+				finished = e.run(maxSteps, 30*time.Minute)
+			}
+			for i := 0; i < ep.Pre; i++ {
+				synctest.Wait()
+				if e.allDone() || !e.d.Step() {
+					break
+				}
+			}
+		}
+		e.d.AdvanceRunningTasks(settle, 50*time.Millisecond)
+		if len(ep.Window) > 0 {
+			finished = finished && e.run(maxSteps, 30*time.Minute)
+		}
+		start(ep.Clients)
+		finished = finished && e.run(maxSteps, 30*time.Minute)
+		if !finished {
+			r.Trouble("clients of epoch %d did not finish", k)
 			return
 		}
 	}
@@ -1302,6 +1883,12 @@ func runC12(r *simcore.Run) {
 			r.Probe("cred_" + kind + "_ref_" + ex.authVerdict)
 			if ex.ordered {
 				r.Probe("cred_after_login_on_same_client_ref_" + ex.authVerdict)
+			}
+			if ex.epoch > 0 {
+				r.Probe("after_htpasswd_change_cred_" + kind + "_ref_" + ex.authVerdict)
+			}
+			if ex.window {
+				r.Probe("between_change_and_refresh_ref_" + ex.authVerdict)
 			}
 		}
 	}
@@ -1456,6 +2043,14 @@ func c12CheckHTTP(r *simcore.Run, e *h2Env, sc *c12Scenario, cl *h2Client, rq *h
 			what += " [credentials: " + ex.Attempt + "]"
 		}
 	}
+	after := ""
+	if ex.epoch > 0 {
+		after = "-after-htpasswd-change"
+		what += fmt.Sprintf(" [epoch %d: sent one refresh interval after the last of the htpasswd changes so far]", ex.epoch)
+		if ex.window {
+			what = strings.TrimSuffix(what, "]") + ", this one before the interval had passed]"
+		}
+	}
 	refused := res.Err == nil && (res.Status == 403 || res.Status == 401)
 	forwarded := len(seen) > 0
 	r.Tracef("http %s ref=%s/%s status=%d err=%v forwarded=%d", rq.ID, ex.Verdict, ex.Why, res.Status, res.Err != nil, len(seen))
@@ -1478,7 +2073,7 @@ func c12CheckHTTP(r *simcore.Run, e *h2Env, sc *c12Scenario, cl *h2Client, rq *h
 		}
 	case c12Admit:
 		if refused {
-			r.Fail("http-over-denied", fmt.Sprint(res.Status), "%s: rules and credentials admit it, the client got %d", what, res.Status)
+			r.Fail("http-over-denied", fmt.Sprint(res.Status)+after, "%s: rules and credentials admit it, the client got %d", what, res.Status)
 		} else if len(seen) != 1 || !c12Has(sc.keys(rq.Route), seen[0].Upstream) || res.Err != nil || res.Status != rq.Resp.Status {
 			r.Fail("http-admitted-not-served", "exchange", "%s: admitted, but upstream saw it %d times and the client got status=%d err=%v (upstream answers %d)", what, len(seen), res.Status, res.Err, rq.Resp.Status)
 		}
